@@ -327,6 +327,8 @@ class SymExec(object):
                         "Lt": a < b, "LtE": a <= b, "Gt": a > b, "GtE": a >= b}[opn]
             except (KeyError, TypeError):
                 pass
+        if opn in ("Is", "IsNot") and a is None and b is None:
+            return opn == "Is"           # (the table above raises TypeError on None < None before it gets here)
         if opn in ("Is", "IsNot") and (a is None or b is None):
             other = b if a is None else a
             if isinstance(other, (sp.Basic, CondExpr, Constraint, Ineq, tuple, list, dict)):
